@@ -2,7 +2,24 @@
 //! thin harness contract, driven through real invocations in the native Soroban host with
 //! exact authorization subsets, arbitrary amounts and ledger movement.
 use ozharness::*;
-use soroban_sdk::{contract, contractimpl, Address, Env, IntoVal, MuxedAddress, Val};
+use soroban_sdk::{contract, contractimpl, Address, Env, IntoVal, MuxedAddress, String as SString, Val};
+
+// the example contracts of the working tree, compiled with the tree's macros
+#[allow(dead_code, unused_imports)]
+#[path = "/repo/examples/fungible-allowlist/src/contract.rs"]
+mod ex_allowlist;
+#[allow(dead_code, unused_imports)]
+#[path = "/repo/examples/fungible-blocklist/src/contract.rs"]
+mod ex_blocklist;
+#[allow(dead_code, unused_imports)]
+#[path = "/repo/examples/fungible-pausable/src/contract.rs"]
+mod ex_pausable;
+#[allow(dead_code, unused_imports)]
+#[path = "/repo/examples/fungible-votes/src/contract.rs"]
+mod ex_votes;
+#[allow(dead_code, unused_imports)]
+#[path = "/repo/examples/fungible-capped/src/contract.rs"]
+mod ex_capped;
 use stellar_tokens::fungible::{burnable::FungibleBurnable, Base, FungibleToken};
 
 #[contract]
@@ -26,12 +43,25 @@ impl FungibleBurnable for Tok {}
 const N: usize = 5;
 const MAX_TTL: u32 = 200_000;
 
+#[derive(Clone, Copy, PartialEq, Debug)]
+enum Flavor {
+    Base,
+    AllowList,
+    BlockList,
+    Pausable,
+    Votes,
+    Capped,
+}
+
 struct Sim {
     e: Env,
     u: Universe,
     tok: Address,
     now: u32,
     min_temp: u32,
+    flavor: Flavor,
+    /// who must authorize `mint` (index), if anybody
+    mint_auth: Option<usize>,
 }
 
 impl Sim {
@@ -39,7 +69,55 @@ impl Sim {
         let e = new_env(start, min_temp, MAX_TTL);
         let tok = e.register(Tok, ());
         let u = Universe::new(&e, N);
-        Sim { e, u, tok, now: start, min_temp }
+        Sim { e, u, tok, now: start, min_temp, flavor: Flavor::Base, mint_auth: None }
+    }
+    /// One of the example contracts with all its gates open (everybody allowed, nobody
+    /// blocked, not paused, cap = i128::MAX), so that it must behave exactly like `Base`.
+    /// Returns the initial supply minted by the constructor to account 0.
+    fn new_flavor(t: &mut Trace, flavor: Flavor, min_temp: u32, start: u32, initial: i128) -> Sim {
+        let e = new_env(start, min_temp, MAX_TTL);
+        let u = Universe::new(&e, N);
+        let name = SString::from_str(&e, "T");
+        let sym = SString::from_str(&e, "T");
+        let a0 = u.a(0).clone();
+        let mut mint_auth = None;
+        let tok = match flavor {
+            Flavor::AllowList => e.register(ex_allowlist::ExampleContract, (name, sym, a0.clone(), a0.clone(), initial)),
+            Flavor::BlockList => e.register(ex_blocklist::ExampleContract, (name, sym, a0.clone(), a0.clone(), initial)),
+            Flavor::Pausable => {
+                mint_auth = Some(0);
+                e.register(ex_pausable::ExampleContract, (name, sym, a0.clone(), initial))
+            }
+            Flavor::Votes => {
+                mint_auth = Some(0);
+                e.register(ex_votes::ExampleContract, (a0.clone(),))
+            }
+            Flavor::Capped => e.register(ex_capped::ExampleContract, (i128::MAX,)),
+            Flavor::Base => e.register(Tok, ()),
+        };
+        let mut s = Sim { e, u, tok, now: start, min_temp, flavor, mint_auth };
+        if flavor == Flavor::AllowList {
+            for i in 0..N {
+                let r = call(&s.e, &s.tok, "allow_user", args(&s.e, [v(&s.e, s.u.a(i)), v(&s.e, s.u.a(0))]), &[s.u.a(0)]);
+                assert!(r.is_some(), "allow_user failed");
+            }
+        }
+        // the constructor's mint of the initial supply, presented as a mint op
+        if matches!(flavor, Flavor::AllowList | Flavor::BlockList | Flavor::Pausable) {
+            t.op(&format!("fungible mint a=0 amt={} lu=0 auth=-", initial));
+            let st = s.state();
+            t.obs(&format!("ok {} now={} ev=mint:0:{} dem=-", st, s.now, initial));
+        }
+        s.now = start;
+        s
+    }
+    fn supports(&self, kind: &str) -> bool {
+        match self.flavor {
+            Flavor::Base | Flavor::Pausable => true,
+            Flavor::AllowList => kind != "mint",
+            Flavor::BlockList => !matches!(kind, "mint" | "burn" | "burn_from"),
+            Flavor::Votes | Flavor::Capped => !matches!(kind, "burn" | "burn_from"),
+        }
     }
     fn bal(&self, i: usize) -> i128 {
         query(&self.e, &self.tok, "balance", args(&self.e, [v(&self.e, self.u.a(i))])).unwrap()
@@ -104,7 +182,11 @@ impl Sim {
             "burn_from" => ("burn_from", args(e, [ad(a[0]), ad(a[1]), v(e, amount)])),
             _ => unreachable!(),
         };
-        t.op(&format!("fungible {} a={} amt={} lu={} auth={}", kind, join(a), amount, lu, join(auth)));
+        let mauth = match (kind, self.mint_auth) {
+            ("mint", Some(m)) => format!(" mauth={}", m),
+            _ => String::new(),
+        };
+        t.op(&format!("fungible {} a={} amt={} lu={} auth={}{}", kind, join(a), amount, lu, join(auth), mauth));
         let signers: Vec<&Address> = auth.iter().map(|&i| self.u.a(i)).collect();
         let r = call(e, &self.tok, func, argv, &signers);
         let (tag, evs, dem) = match r {
@@ -155,15 +237,15 @@ fn pick_amount(rng: &mut Rng, sim: &Sim, from: Option<usize>, spender: Option<us
     }
 }
 
-fn right_auth(kind: &str, a: &[usize]) -> Vec<usize> {
+fn right_auth(kind: &str, a: &[usize], mint_auth: Option<usize>) -> Vec<usize> {
     match kind {
-        "mint" => vec![],
+        "mint" => mint_auth.into_iter().collect(),
         _ => vec![a[0]],
     }
 }
 
-fn gen_auth(rng: &mut Rng, kind: &str, a: &[usize], auth_focus: bool) -> Vec<usize> {
-    let right = right_auth(kind, a);
+fn gen_auth(rng: &mut Rng, kind: &str, a: &[usize], auth_focus: bool, mint_auth: Option<usize>) -> Vec<usize> {
+    let right = right_auth(kind, a, mint_auth);
     let p = if auth_focus { 55 } else { 80 };
     if rng.chance(p) {
         let mut r = right;
@@ -247,11 +329,24 @@ fn main() {
     let len = arg_u64("--len", 45);
     let mut rng = Rng::new(seed);
     scenario_directed(&mut t);
+    let flavors = std::env::args().any(|a| a == "--flavors");
     for k in 0..nseq {
         let min_temp = if rng.chance(50) { 1 } else { 16 };
         let start = *rng.pick(&[2u32, 100, 5000]);
-        let mut s = Sim::new(min_temp, start);
-        t.seq(&format!("rand k={} seed={} min_temp={} start={}", k, seed, min_temp, start));
+        // with --flavors every other sequence runs one of the example contracts with its
+        // gates open (must behave exactly like Base)
+        let flavor = if flavors && k % 2 == 1 {
+            *rng.pick(&[Flavor::AllowList, Flavor::BlockList, Flavor::Pausable, Flavor::Votes, Flavor::Capped])
+        } else {
+            Flavor::Base
+        };
+        t.seq(&format!("rand k={} seed={} min_temp={} start={} flavor={:?}", k, seed, min_temp, start, flavor));
+        let mut s = if flavor == Flavor::Base {
+            Sim::new(min_temp, start)
+        } else {
+            let initial = *rng.pick(&[0i128, 1000, 1_000_000_000_000, i128::MAX - 5]);
+            Sim::new_flavor(&mut t, flavor, min_temp, start, initial)
+        };
         // ledgers worth visiting: expiry boundaries of approvals made so far
         let mut marks: Vec<u32> = vec![];
         for _ in 0..len {
@@ -283,6 +378,9 @@ fn main() {
             } else {
                 "burn_from"
             };
+            if !s.supports(kind) {
+                continue;
+            }
             let p = |rng: &mut Rng| rng.below(N as u64) as usize;
             let (a, amount, lu): (Vec<usize>, i128, u32) = match kind {
                 "mint" => (vec![p(&mut rng)], pick_amount(&mut rng, &s, None, None), 0),
@@ -325,7 +423,7 @@ fn main() {
                     (vec![sp, f], pick_amount(&mut rng, &s, Some(f), Some(sp)), 0)
                 }
             };
-            let auth = gen_auth(&mut rng, kind, &a, auth_focus);
+            let auth = gen_auth(&mut rng, kind, &a, auth_focus, s.mint_auth);
             s.exec(&mut t, kind, &a, amount, lu, &auth);
         }
     }
